@@ -102,6 +102,7 @@ func run(args []string, stdout io.Writer) error {
 		if err != nil {
 			return fmt.Errorf("error getting NAL units: %w", err)
 		}
+		nalus = nonEmptyNalus(nalus)
 		frames, err := findAnnexBFrames(nalus, o.codec)
 		if err != nil {
 			return fmt.Errorf("error finding frames: %w", err)
@@ -205,6 +206,7 @@ func parseProgressiveMp4(w io.Writer, f *mp4.File, maxNrSamples int, codec strin
 		if err != nil {
 			return err
 		}
+		nalus = nonEmptyNalus(nalus)
 		switch codec {
 		case "avc", "h.264", "h264":
 			if avcSPS == nil {
@@ -316,6 +318,7 @@ func printAVCNalus(w io.Writer, avcSPS *avc.SPS, nalus [][]byte, nr int, pts uin
 	msg := ""
 	var seiNALUs [][]byte
 	totLen := 0
+	nalus = nonEmptyNalus(nalus)
 	for i, nalu := range nalus {
 		totLen += 4 + len(nalu)
 		if i > 0 {
@@ -367,6 +370,7 @@ func printHEVCNalus(w io.Writer, nalus [][]byte, nr int, pts uint64, seiLevel in
 	msg := ""
 	var seiNALUs [][]byte
 	totLen := 0
+	nalus = nonEmptyNalus(nalus)
 	for i, nalu := range nalus {
 		totLen += 4 + len(nalu)
 		if i > 0 {
@@ -420,6 +424,9 @@ func printSEINALus(w io.Writer, seiNALUs [][]byte, codec string, seiLevel int, a
 		for _, seiNALU := range seiNALUs {
 			if seiLevel >= 2 {
 				fmt.Fprintf(w, "  SEI raw: %s\n", hex.EncodeToString(seiNALU))
+			}
+			if len(seiNALU) < hdrLen {
+				continue
 			}
 			seiBytes := seiNALU[hdrLen:]
 			buf := bytes.NewReader(seiBytes)
@@ -493,6 +500,17 @@ func findAnnexBFrames(nalus [][]byte, codec string) ([][][]byte, error) {
 		frames = append(frames, nalus[frameStart:])
 	}
 	return frames, nil
+}
+
+// nonEmptyNalus drops NAL units without any byte (zero length field or consecutive start codes).
+func nonEmptyNalus(nalus [][]byte) [][]byte {
+	out := nalus[:0:0]
+	for _, nalu := range nalus {
+		if len(nalu) > 0 {
+			out = append(out, nalu)
+		}
+	}
+	return out
 }
 
 func isAvcAudNalu(nalu []byte) bool {
